@@ -332,8 +332,15 @@ func run(c Case) (string, *mc.Viol) {
 		// a state that has already accepted its honest response must judge the next response on
 		// its own merits (nothing learnt from the first call may let a bad response through)
 		if c.KeyA == c.KeyB && c.ReqI == c.ReqJ {
-			if p := mc.Catch(func() { _, _ = finalize(append([]byte{}, resp...)) }); p != "" {
+			// the caller receives responses into ONE buffer: the honest response is finalized from it,
+			// then the next response (the case's) is written over it in place
+			buf := append([]byte{}, resp...)
+			if p := mc.Catch(func() { _, _ = finalize(buf) }); p != "" {
 				return "panic", &mc.Viol{Sig: fmt.Sprintf("type%d finalization panics (honest response)", c.T), What: p}
+			}
+			if len(in) <= len(buf) {
+				copy(buf, in)
+				in = buf[:len(in)]
 			}
 		}
 	}
